@@ -783,12 +783,25 @@ impl<'r> Lowerer<'r> {
         let ty = self.type_info.type_of(id);
         let ty = self.type_info.convert(&ty);
 
+        // All fields are evaluated (in source order) into their own
+        // variables before the record is built. An early exit in one of the
+        // field expressions (`return`, `?`) then only drops the fields that
+        // have been evaluated instead of a half-initialized record.
+        let fields: Vec<_> = record
+            .fields
+            .iter()
+            .map(|(s, expr)| {
+                let op = self.expr(expr);
+                let field_ty = self.type_info.type_of(expr);
+                let field_ty = self.type_info.convert(&field_ty);
+                let var = self.assign_to_var(op, field_ty);
+                (s, var, field_ty)
+            })
+            .collect();
+
         let to = self.tmp(ty);
 
-        for (s, expr) in &record.fields {
-            let op = self.expr(expr);
-            let field_ty = self.type_info.type_of(expr);
-            let field_ty = self.type_info.convert(&field_ty);
+        for (s, var, field_ty) in fields {
             self.do_assign(
                 Place {
                     var: to.clone(),
@@ -796,7 +809,7 @@ impl<'r> Lowerer<'r> {
                     projection: vec![Projection::Field(**s)],
                 },
                 field_ty,
-                op,
+                Value::Move(var),
             );
         }
 
